@@ -277,13 +277,13 @@ class HistContainer(IndexedContainer):
         :param overflow: Number of entries in the overflow bin
         :type overflow: int
         """
-        self._manual_heights = True
         _new_data = np.array(bin_heights)
         if _new_data.ndim != 1:
             raise ValueError("Invalid dimensions for bin heights. " f"Got {_new_data.ndim}-d array, expected 1-d array")
         _new_data = np.append(np.insert(_new_data, 0, underflow), overflow)
         if len(_new_data) != len(self._data):
             raise ValueError("Length of bin entries does not match binning. " "Got {}, expected {}".format(len(_new_data) - 2, len(self._data) - 2))
+        self._manual_heights = True
         self._data = _new_data
         self._processed_entries = []
         self._unprocessed_entries = []
